@@ -45,7 +45,7 @@ func Attribute(m Mismatch, running string) string {
 		return "C08"
 	case "accepted-invalid":
 		switch {
-		case has("!reuse", "!intx", "reuse-gone", "confuse"):
+		case has("!reuse", "!intx", "reuse-gone", "confuse", "!inblock", "!ephemeral"):
 			if running == "C01" {
 				return "C01" // a parent counted twice creates value
 			}
